@@ -124,7 +124,7 @@ def prepare():
 
 def _evict(keep):
     ks = sorted(glob.glob(os.path.join(CACHE, 'k-*')), key=os.path.getmtime, reverse=True)
-    for k in ks[3:]:
+    for k in ks[8:]:
         if k != keep:
             shutil.rmtree(k, ignore_errors=True)
 
@@ -133,13 +133,23 @@ class BuildError(Exception):
     pass
 
 
+def _errors(out):
+    """the compiler errors of a cargo log (with a little context), not its tail"""
+    lines = out.splitlines()
+    keep = []
+    for i, l in enumerate(lines):
+        if l.startswith('error'):
+            keep += lines[i:i + 8] + ['...']
+    return '\n'.join(keep[:120]) if keep else out[-3000:]
+
+
 def _build(tree, cdir):
     sh(['rsync', '-a', '--exclude', 'target', '--exclude', '.git', REPO + '/', tree + '/'])
     tdir = os.path.join(CACHE, 'target-native')
     # 1. native build: build.rs regenerates the four parsers from the current .lalrpop sources
     p = sh(['cargo', 'build', '--offline', '--target-dir', tdir], cwd=tree, check=False, timeout=1200)
     if p.returncode != 0:
-        raise BuildError('the working tree does not build:\n' + p.stdout[-3000:])
+        raise BuildError('the working tree does not build:\n' + _errors(p.stdout))
     # 2. generator
     kf_active = sorted(k['id'] for k in load_kf() if k.get('status', 'open') == 'open')
     info = gen.attach(tree, kf_active)
@@ -156,7 +166,7 @@ def _build(tree, cdir):
     p = sh(['cargo', 'build', '--offline', '--example', 'verif_replay', '--target-dir', rdir], cwd=tree, env=env,
            check=False, timeout=1200)
     if p.returncode != 0:
-        raise BuildError('harnesses do not compile natively against this tree:\n' + p.stdout[-6000:])
+        raise BuildError('harnesses do not compile natively against this tree:\n' + _errors(p.stdout))
     shutil.copy(os.path.join(rdir, 'debug/examples/verif_replay'), os.path.join(cdir, 'replay-dev'))
     # E2 observation / replay tool: the real parsers, plain build (no cfg)
     p = sh(['cargo', 'build', '--offline', '--example', 'verif_e2', '--target-dir', rdir], cwd=tree, env=env, check=False, timeout=1200)
@@ -185,7 +195,7 @@ def _build(tree, cdir):
     p = sh(['cargo', 'kani', '--only-codegen', '-Z', 'stubbing', '--target-dir', kdir], cwd=tree, check=False,
            timeout=2400)
     if p.returncode != 0:
-        raise BuildError('harnesses do not compile under Kani against this tree:\n' + p.stdout[-6000:])
+        raise BuildError('harnesses do not compile under Kani against this tree:\n' + _errors(p.stdout))
     metas = glob.glob(os.path.join(kdir, 'kani', '*', 'debug', 'build', 'emulator_8086', '*', 'out', '*.kani-metadata.json'))
     # also look in the plain layout
     metas += glob.glob(os.path.join(kdir, 'kani', '**', '*.kani-metadata.json'), recursive=True)
